@@ -111,4 +111,23 @@ for order2 in ('ABACAD', 'XYZXYZ'):
         labels = ''.join(f.metadata['order_label'] for f in cad)
         R.check('set_order/relabels-every-position', dict(history=hist_op, new_order=order2), labels == order2[:len(cad)] and
                 [id(x) for x in cad.by_label(order2[0])] == [id(f) for k_, f in enumerate(cad) if order2[k_] == order2[0]], labels, order2[:len(cad)])
+# selections from an ordered cadence: labels of the (shared) frames are stable, empty index sequences give an empty cadence
+for order in ('ABACD', 'ABACAD'):
+    cad = stg.OrderedCadence(order=order)
+    for _ in range(5):
+        cad.append(mkframe())
+    lab0 = [f.metadata['order_label'] for f in cad]
+    for sel in (slice(1, 4), [3, 1], (2, 0, 4), slice(0, None, 2)):
+        sub = cad[sel]
+        want = [cad.frames[k] for k in (range(*sel.indices(5)) if isinstance(sel, slice) else sel)]
+        R.check('selection/labels-stable-and-frames-as-a-list-would', dict(order=order, selection=str(sel)),
+                [id(x) for x in sub] == [id(x) for x in want] and [f.metadata['order_label'] for f in cad] == lab0, [f.metadata['order_label'] for f in cad], lab0)
+for ordered in (False, True):
+    cad = stg.OrderedCadence(order='ABACAD') if ordered else stg.Cadence()
+    for _ in range(3):
+        cad.append(mkframe())
+    for empty in ([], (), slice(2, 2)):
+        sub = R.guard('selection/empty-index/no-exception', dict(ordered=ordered, index=repr(empty)), lambda: cad[empty])
+        if sub is not None:
+            R.check('selection/empty-index-gives-an-empty-cadence', dict(ordered=ordered, index=repr(empty)), len(sub) == 0 and isinstance(sub, stg.Cadence), len(sub), 0)
 R.finish()
